@@ -31,6 +31,8 @@ type violation struct {
 	Sig    string `json:"signature"`
 	Case   string `json:"case,omitempty"`
 	Fam    string `json:"family,omitempty"`
+	Props  string `json:"props,omitempty"` // oracle set and options of the run that found it (for replay)
+	Opts   string `json:"opts,omitempty"`
 }
 
 type batchResult struct {
@@ -172,6 +174,9 @@ func workerMain(props map[string]bool, opts map[string]string) {
 			}
 		}
 		prev = w.prevLine
+		for i := range w.res.Viol {
+			w.res.Viol[i].Props, w.res.Viol[i].Opts = opts["_props"], opts["_opts"]
+		}
 		b, _ := json.Marshal(w.res)
 		out.Write(b)
 		out.WriteByte('\n')
